@@ -444,6 +444,8 @@ class Models:
                 eqg.on_differ(I, st, rx, xo, ry, yo, n)
                 from . import e3
                 e3.on_needle_differs(I, st, rx, xo, ry, yo, n)
+        if name == 'ptreq' and pos:
+            st.ghost['ptreq'] = tuple(st.ghost.get('ptreq', ())) + (arg,)
         if name == 'nzfrom' and self.e3 and not pos:
             from . import e3
             T, lo = arg
